@@ -922,10 +922,14 @@ func gnNodeStream(rng *rand.Rand, n int, tier string, out string) (*Summary, err
 					case pan:
 						sm.finding(Finding{Signature: "setnode/panic", What: "SetNode panics: " + err.Error(), Input: in})
 					case err != nil:
+						// C10 speaks about SetNode calls that succeed; what a failing call leaves behind
+						// (documented: "may modify the supplied root even if the function fails") is
+						// counted, compared with the model, and stated as c10_refuted_failed_set_mutates /
+						// c13_no_rollback, but it is no violation of C10
 						if dd := leafMapDiff(lmPre, lmPost, 4); len(dd) > 0 {
-							sm.finding(Finding{Signature: "setnode/failed-set-changes-leaves", What: "SetNode returned an error but changed leaves: " + strings.Join(dd, " ; ") + " (" + err.Error() + ")", Input: in})
+							sm.count("failed_set", "changes-leaves")
 						} else if post != pre {
-							sm.finding(Finding{Signature: "setnode/failed-set-leaves-empty-nodes", What: "SetNode returned an error and left initialised empty containers / lists / entries behind (" + err.Error() + ")", Input: in})
+							sm.count("failed_set", "leaves-empty-nodes")
 						} else if mut == "" && !useShadow && want != "" && (init || s.exists) && label == "scalar-"+s.kind {
 							sig := "setnode/type-correct-value-rejected"
 							switch {
